@@ -413,6 +413,25 @@ func runC20(w *World, tier string, advMode string) (bool, interface{}) {
 			}
 		}
 	}
+	if advMode == "" && w.Tape.Bool(1, 2, "machinesRestartBeforeSigning") {
+		// the reinitialised state is durable: machines that are switched off and on
+		// again (with the prescribed log replay) between the reinitialisation and
+		// the signing still sign
+		for _, idx := range newIdx {
+			if !w.Tape.Bool(2, 3, "restartThis") {
+				continue
+			}
+			if err := w.Airs[idx].Restart([]string{round}); err != nil {
+				w.Fail("C20", "machine-unusable-after-restart-following-reinit", fmt.Sprintf("machine of %s, restarted after the reinitialisation: %v", w.Nodes[idx].Name, err))
+				return true, nil
+			}
+			w.Stats.Fault("machine-restart-after-reinit")
+			if got := shareOf(w.Airs[idx], round); got == "" {
+				w.Fail("C20", "share-lost-by-restart-after-reinit", fmt.Sprintf("machine of %s holds no share of the round after a restart", w.Nodes[idx].Name))
+				return true, nil
+			}
+		}
+	}
 	before := len(c2.Tr.Order)
 	c2.ProposeFiles(newIdx[w.Tape.Choose(n, "proposer2")], round, map[string][]byte{"after reinit": []byte("signed after the reinitialisation")})
 	c2.L.RunUntil(func() bool {
